@@ -296,4 +296,9 @@ M("registry-shared-default", ["C03"], "_errors.py", "    def __init__(self):\n  
 M("current-action-lru-cache", ["C05", "C04"], "_action.py", "def current_action():", "from functools import lru_cache\n\n\n@lru_cache(maxsize=None)\ndef current_action():", ".state")
 M("tostring-cached", ["C06"], "_action.py", "    def toString(self):", "    @__import__('functools').lru_cache(maxsize=None)\n    def toString(self):", ".state")
 
+M("generator-state-hoisted", ["C15"], "_generators.py",
+  "    @wraps(original)\n    def wrapper(*a, **kw):\n        # Keep track of whether the next value to deliver to the generator is\n        # a non-exception or an exception.\n        ok = True\n\n        # Keep track of the next value to deliver to the generator.\n        value_in = None\n",
+  "    ok = True\n    value_in = None\n\n    @wraps(original)\n    def wrapper(*a, **kw):\n        nonlocal ok, value_in\n", "C15.ctx")
+M("send-errors-on-self", ["C08"], "_output.py", "        errors = []\n", "        errors = self._errors = getattr(self, '_errors', [])\n", "C08.report")
+
 VARIANTS = V
